@@ -202,9 +202,8 @@ func c01Exec(raw json.RawMessage, res *RunResult) {
 	parsedOK := false
 	for i, c := range sc.Cmds {
 		if c.Kind == "rerun" && !parsedOK {
-			// RunAfterParsed is only defined after a Parse that succeeded
-			res.Probe("rerun_skipped_no_parse")
-			continue
+			// the API is total: a re-run after a Parse that failed must end in an error, not in a crash
+			res.Fault("rerun_after_failed_parse")
 		}
 		m.Reset()
 		// A hang is made a deterministic event: the simulated clock cancels the evaluation.
